@@ -18,7 +18,9 @@ X.HOSTS.update({'hi': ('xn--bcher-kva.test', '10.0.1.1'), 'h4': ('10.0.1.2', '10
                 # two hosts given as address literals that end alike (an address has no domain hierarchy)
                 'ia': ('10.0.2.7', '10.0.2.7'), 'ib': ('10.9.2.7', '10.9.2.7'),
                 # host names without a dot, and one under ".local" (http.cookiejar's "effective request-host")
-                'na': ('intranet', '10.0.3.1'), 'nb': ('otherhost', '10.0.3.2'), 'nl': ('printer.local', '10.0.3.3')})
+                'na': ('intranet', '10.0.3.1'), 'nb': ('otherhost', '10.0.3.2'), 'nl': ('printer.local', '10.0.3.3'),
+                # the "effective request-host" of `intranet`, as a host of its own; hosts written with the root dot
+                'nm': ('intranet.local', '10.0.3.4'), 'da': ('shop.test.', '10.0.3.5'), 'db': ('bank.test.', '10.0.3.6')})
 
 UI = {'none': ('', None), 'user': ('user@', None), 'userpw': ('user:pw@', ('user', 'pw')),
       'enc': ('us%40er:p%3Aw@', ('us@er', 'p:w')), 'crlf': ('u%0d%0a:p%0d%0a@', ('u\r\n', 'p\r\n')),
@@ -108,6 +110,9 @@ def run_one(sc):
     if use == 'cookie':
         if c['cookie'].startswith('host-only->'):
             return run_related_host_case(c['cookie'].split('>')[1])
+        if c['cookie'].startswith('host-only:'):
+            a_, b_ = c['cookie'][len('host-only:'):].split('->')
+            return run_related_host_case(b_, a_)
         if c['cookie'].startswith('domain:'):
             _, setter, target, domain = c['cookie'].split(':')
             return run_domain_cookie_case(setter, target, domain)
@@ -189,16 +194,16 @@ COOKIE_VALUES = {'plain': b'v1', 'space': b'a b', 'tab': b'a\tb', 'quote': b'"a 
                  'pct': b'%0D%0AX-Evil:%201'}
 
 
-def run_related_host_case(target):
+def run_related_host_case(target, setter='h1'):
     """h1 sets a host-only cookie (no Domain attribute), then redirects to a host whose NAME is related to h1's
     (sub-domain / suffix look-alike): the cookie belongs to h1 alone."""
     from drivers.websession import expected
     U = lambda h, p: {'scheme': 'http', 'host': h, 'port': 'def', 'path': p, 'creds': False}
-    script = {'start': U('h1', 'a'), 'maxred': 3,
-              'steps': [{'status': 302, 'loc': U('h1', 'b'), 'setcookie': True}, {'status': 302, 'loc': U(target, 'a'), 'setcookie': False},
+    script = {'start': U(setter, 'a'), 'maxred': 3,
+              'steps': [{'status': 302, 'loc': U(setter, 'b'), 'setcookie': True}, {'status': 302, 'loc': U(target, 'a'), 'setcookie': False},
                         {'status': 200}]}
     ev, outcome = X.run_script(script)
-    exps = [expected(U('h1', 'a')), expected(U('h1', 'b')), expected(U(target, 'a'))]
+    exps = [expected(U(setter, 'a')), expected(U(setter, 'b')), expected(U(target, 'a'))]
     out = []
     k = 0
     for e in ev:
@@ -281,10 +286,16 @@ def run_text_cases(chk, quick):
     for target in ('hs', 'hx'):
         sc = {'text': {'cookie': 'host-only->' + target}, 'use': 'cookie', 'text_class': 'cookie=related-host-' + target}
         runs.append(('text/cookie', sc, run_related_host_case(target)))
+    for setter, target in (('na', 'nm'), ('nm', 'na')):
+        sc = {'text': {'cookie': 'host-only:%s->%s' % (setter, target)}, 'use': 'cookie',
+              'text_class': 'cookie=effective-host-%s-%s' % (setter, target)}
+        runs.append(('text/cookie', sc, run_related_host_case(target, setter)))
     for setter, target, domain in (('ia', 'ib', '.2.7'), ('ia', 'ib', '2.7'), ('h1', 'h2', '.test'), ('h1', 'h2', 'test'),
                                    ('h1', 'hx', 'h1.test'),
                                    ('na', 'nb', '.local'), ('na', 'nb', 'local'), ('na', 'nl', '.local'),
-                                   ('na', 'nb', 'intranet')):
+                                   ('na', 'nb', 'intranet'),
+                                   # a top-level domain written with the root dot
+                                   ('da', 'db', '.test.'), ('da', 'db', 'test.')):
         sc = {'text': {'cookie': 'domain:%s:%s:%s' % (setter, target, domain)}, 'use': 'cookie',
               'text_class': 'cookie=domain-attribute-%s-%s' % (setter, domain)}
         runs.append(('text/cookie', sc, run_domain_cookie_case(setter, target, domain)))
